@@ -171,6 +171,80 @@ class Tz:
         return not bad, bad
 
 
+# ----------------------------------------------------------------------------- the zone-file reader: independent side
+def tzif_read(b):
+    """What a reader written from RFC 8536 obtains from the bytes `b`, with the two documented habits of muduo's reader:
+    it takes the 64-bit block only when the version byte is exactly '2' (else the 32-bit block), and it does not need
+    the bytes behind the designations of the block it takes (indicators and footer may be cut short or missing).
+    -> ("ok", table) | ("invalid", why) | ("unknown", why: outside what the oracle judges).
+    table: trans [(utc, shifted local, type)], types [(utoff, isdst 0/1, desigidx)], chars, footer.
+    Independent of the Lean model (struct + slices); used by the oracle on the implementation's own dump."""
+    if len(b) < 44 or b[:4] != b"TZif":
+        return ("invalid", "no TZif header")
+    c1 = struct.unpack(">6l", b[20:44])
+    if min(c1) < 0:
+        return ("unknown", "negative counter in the first header")
+    use64 = b[4:5] == b"2"
+    if use64:
+        isut, isstd, leap, timecnt, typecnt, charcnt = c1
+        off = 44 + 4 * timecnt + timecnt + 6 * typecnt + charcnt + 8 * leap + isstd + isut
+        if len(b) < off + 44 or b[off:off + 4] != b"TZif":
+            return ("invalid", "no second header")
+        cnt = struct.unpack(">6l", b[off + 20:off + 44])
+        p, tsz = off + 44, 8
+    else:
+        cnt, p, tsz = c1, 44, 4
+    if min(cnt) < 0:
+        return ("unknown", "negative counter")
+    isut, isstd, leap, timecnt, typecnt, charcnt = cnt
+    if leap != 0:
+        return ("invalid", "leap seconds")
+    if charcnt == 0:
+        return ("unknown", "charcnt = 0 (forbidden by RFC 8536; the reader declares `char buf[0]`, undefined)")
+    if isut not in (0, typecnt) or isstd not in (0, typecnt):
+        return ("invalid", "indicator counts")
+    need = timecnt * tsz + timecnt + 6 * typecnt + charcnt
+    if len(b) < p + need:
+        return ("invalid", "data block cut short")
+    u = list(struct.unpack(">%d%s" % (timecnt, "l" if tsz == 4 else "q"), b[p:p + timecnt * tsz]))
+    p += timecnt * tsz
+    idx = list(b[p:p + timecnt])
+    p += timecnt
+    types = [struct.unpack(">lBB", b[p + 6 * i:p + 6 * i + 6]) for i in range(typecnt)]
+    p += 6 * typecnt
+    if any(i >= typecnt for i in idx):
+        return ("invalid", "type index out of range")
+    chars = b[p:p + charcnt]
+    p += charcnt
+    footer = b[p + isstd + isut:] if use64 else b""
+    return ("ok", {"trans": [(t, t + types[i][0], i) for t, i in zip(u, idx)],
+                   "types": [(o, 1 if d else 0, a) for o, d, a in types], "chars": chars, "footer": footer,
+                   "needed": p})
+
+
+def tzif_block(times, idxs, types, chars=b"", isstd=b"", isut=b"", leaps=()):
+    return {"times": list(times), "idxs": list(idxs), "types": list(types), "chars": bytes(chars), "isstd": bytes(isstd),
+            "isut": bytes(isut), "leaps": list(leaps)}
+
+
+def mk_tzif(version, b1, b2=None, footer=b"", counts1=None, counts2=None, magic2=b"TZif"):
+    """RFC 8536 encoder (the Python twin of `TzFile.serialize`, plus leap records and forged counters for damaged files).
+    `counts*`: override the six counters written (isut, isstd, leap, time, type, char)"""
+    def enc(blk, tsz, counts):
+        c = counts or (len(blk["isut"]), len(blk["isstd"]), len(blk["leaps"]), len(blk["times"]), len(blk["types"]), len(blk["chars"]))
+        fmt = ">l" if tsz == 4 else ">q"
+        body = b"".join(struct.pack(fmt, t) for t in blk["times"]) + bytes(blk["idxs"])
+        body += b"".join(struct.pack(">lBB", o, d, a) for o, d, a in blk["types"]) + blk["chars"]
+        body += b"".join(struct.pack(fmt, t) + struct.pack(">l", c_) for t, c_ in blk["leaps"]) + blk["isstd"] + blk["isut"]
+        return struct.pack(">6l", *c), body
+    c, body = enc(b1, 4, counts1)
+    out = b"TZif" + version + b"\0" * 15 + c + body
+    if b2 is not None:
+        c, body = enc(b2, 8, counts2)
+        out += magic2 + version + b"\0" * 15 + c + body + footer
+    return out
+
+
 def zone_files():
     """every distinct TZif file under /usr/share/zoneinfo: (without leap seconds, with leap seconds)"""
     seen, plain, leap = set(), [], []
@@ -218,29 +292,45 @@ def unq(s):
 class Prop:
     id = "C20"
     lean_module = "MuduoVerif.Props.C20"
-    gen_engines = ["Calendar", "Zone", "SysSkel"]
+    gen_engines = ["Calendar", "Zone", "SysSkel", "TzFileSkel"]
     drivers = ["calendar"]
     technique = ("Lean 4 theorems over the calendar functions translated from /repo's AST (400-year periodicity + one full cycle by "
                  "kernel evaluation) and over the zone look-ups built from extracted guards (binary-search correctness + case analysis "
                  "under a decidable well-formedness of the zone data) + differential run of the real Date/TimeZone/Timestamp/InetAddress/"
-                 "Endian code against the Lean driver on every day 1900..2500 and every TZif file, with Python and glibc as oracles")
+                 "Endian code against the Lean driver on every day 1900..2500 and every TZif file, with Python and glibc as oracles; the zone-FILE "
+                 "READER (File::readInt32/64/UInt8/readBytes/skip, readDataBlock, readTimeZoneFile, addLocalTime/addTransition) is a Lean "
+                 "function over the bytes whose widths, signedness, lengths, tests, reader choices and skips are extracted from the AST "
+                 "(Generated/TzFileSkel.lean) and whose statement order is tied by skeleton equality; theorems against an independent "
+                 "RFC 8536 encoder; the loaded table is dumped entry by entry and compared with the model and with a Python RFC 8536 reader")
     level_text = ("Kernel-checked theorems for ALL inputs: day number <-> civil date round trips for every date from -4800-03-01 on, "
                   "successor/monotonicity/weekday, BreakTime = proleptic Gregorian day counting and fromUtcTime(BreakTime t) = t; the UTC "
                   "zone look-up returns the record of the last transition <= t; fromLocalTime(toLocalTime t) = t on the right side of a "
                   "repeated period (including the one of the LAST transition), the other side gives the other instant, skipped local "
                   "times resolve by the requested side - for every zone table satisfying the decidable predicate WF, which the check "
-                  "evaluates on every zone file present; IPv4 text and big-endian helpers round-trip for all values. The integer "
-                  "functions and every guard of the look-ups are re-translated from /repo on every run; reader, search loop and "
-                  "branch structure are tied by the differential run; agreement with glibc is tested, not proved")
-    level_note = ("Trusted: Lean kernel, vlib/extract.py + vlib/gen/{calendar,zone}.py, the hand-written parts of Model/Zone.lean "
-                  "(TZif reader, libstdc++ search loops, branch order of findLocalTime) and Model/Inet.lean (glibc inet_ntop/inet_pton "
+                  "evaluates on every zone file present; the zone-file reader inverts the RFC 8536 encoder for every well-formed zone "
+                  "description (any number of transitions/types, signed 32/64-bit times, with or without the second block, any version "
+                  "byte), sign-extends transition times, never needs a byte beyond the designations of the block it takes, refuses every "
+                  "prefix that cuts into that part and reads the same table from any longer file, and every table it loads satisfies the "
+                  "first clause of WF; IPv4 text and big-endian helpers round-trip for all values. The integer "
+                  "functions, every guard of the look-ups and every parameter + the statement skeletons of the reader are re-translated "
+                  "from /repo on every run; search loop and branch structure of the look-ups are tied by the differential run; agreement "
+                  "with glibc is tested, not proved")
+    level_note = ("Trusted: Lean kernel, vlib/extract.py + vlib/gen/{calendar,zone,tzfileskel}.py, the hand-written parts of Model/Zone.lean "
+                  "(libstdc++ search loops, branch order of findLocalTime), the control structure of Model/TzFile.lean (tied by skeleton "
+                  "equality + the table dump) and Model/Inet.lean (glibc inet_ntop/inet_pton "
                   "IPv4 rules) as far as the differential run exercises them; integer widths are not modelled.")
     rule = ("calendar: every day 1900-01-01..2500-12-31 by range digests (3-way: code, model, Python datetime) + individual days "
             "(thorough: every day; quick: stride + month/leap/century boundaries) + random days of the int range; instants: boundary "
             "values and random seconds in +-2^35, dense in 1970..2037. zones: every distinct TZif file without leap seconds under "
             "/usr/share/zoneinfo (quick: ~40, fixed list + seed-chosen), probes at every transition +-3 s, at both edges of every "
             "repeated/skipped period +-2 s, on a grid 1970..2037 and beyond the last transition, fromLocalTime of skipped local times; "
-            "damaged/truncated files; leap-second files (must be rejected). inet: boundary-dense addresses x ports, malformed texts, "
+            "damaged/truncated files; leap-second files (must be rejected). zone-file reader: the table loadZoneFile builds is dumped "
+            "(transitions: utc, shifted local, type; types: utoff, isdst, desigidx; designations; footer; or the kind of failure) for "
+            "EVERY platform file (+ leap-second files) and for synthesized files: 32-bit block only, second block, version bytes "
+            "2/3/4/1/9/0/ff, no transitions, no types, times before 1901 / after 2038 / with the top bit set, 256 types x 300 "
+            "transitions, indicator bytes, isdst bytes other than 0/1, leap records in the first block only, random blocks; damaged: "
+            "leap seconds, indicator counts, type index out of range, negative / oversized counters in either header, damaged magic "
+            "(each byte, both headers); EVERY truncation point of two platform files and two synthesized ones. inet: boundary-dense addresses x ports, malformed texts, "
             "IPv6 textual compressions, byte-order boundary values. non-trivial = the case has at least one accepted conversion; "
             "distinct = distinct result traces")
     trusted_base = [
@@ -248,8 +338,16 @@ class Prop:
         "vlib/extract.py with vlib/gen/calendar.py (getJulianDayNumber, getYearMonthDay, weekDay, fillHMS, BreakTime, fromUtcTime, the "
         "constants) and vlib/gen/zone.py (both comparators, the choice of std::upper_bound and its arguments, every guard and the "
         "prior_second / shifted-epoch / offset arithmetic of the two findLocalTime overloads, toLocalTime, fromLocalTime)",
-        "hand-written Model/Zone.lean: TZif v1/v2 reader over the file's bytes, the loops of libstdc++ std::upper_bound/lower_bound, the "
+        "hand-written Model/Zone.lean: the loops of libstdc++ std::upper_bound/lower_bound, the "
         "order of the tests in findLocalTime and the record each branch returns - tied by the differential run over all zone files",
+        "vlib/gen/tzfileskel.py (clang-14 JSON AST -> Generated/TzFileSkel.lean): parameters of the zone-file reader (bytes / byte swap / "
+        "return type / exception text of File::readInt32, readInt64, readUInt8; readBytes; skip; magic, version test, lengths, reader + type "
+        "+ order of the six counters, first-block size with every implicit conversion, skips, reader of a transition time and the "
+        "conversions on its way into std::vector<int64_t>, ttinfo reads -> addLocalTime parameters) which Model/TzFile.lean calls, and the "
+        "statement skeletons of the twelve functions of the reader (tzfile_reader_tied); hand-written: the control structure of "
+        "Model/TzFile.lean (what fread/fseek/std::vector::reserve/at do: short read, seek beyond the end, negative seek, length_error, "
+        "out_of_range), the reference encoder TzFile.serialize (RFC 8536), harness/calendar_drv.cc compiling /repo's TimeZone.cc itself "
+        "to read TimeZone::Data through the friend TimeZoneTestPeer, the Python RFC 8536 reader `tzif_read` of this plug-in",
         "hand-written Model/Inet.lean (glibc inet_ntop/inet_pton for AF_INET, snprintf %u, bswap) and the printf forms of "
         "Model/Calendar.lean - tied by the differential run",
         "vlib/gen/sysskel.py (clang-14 JSON AST -> Generated/SysSkel.lean: statement skeletons of every function of SocketsOps.cc, Socket.cc/.h, InetAddress.cc/.h, Endian.h, Poller.cc, poller/DefaultPoller.cc, the poller constructors/destructors, Channel::tie, createEventfd, createTimerfd; what it leaves out is listed in the generated header) and the reading Model/SysSkelDecl.lean of what the "
@@ -260,12 +358,17 @@ class Prop:
     ]
     assumptions = [
         "no intermediate leaves `int`: |4*(day number+32044)+3| < 2^31 (years up to about +-1.4 million); the theorems are over unbounded integers",
-        "zone theorems hold for tables satisfying WF (first clause: what addTransition stores - theorem addTransition_local; second: the gap "
+        "zone theorems hold for tables satisfying WF (first clause: what addTransition stores - holds for every table the reader loads: theorem tzfile_table_wf; second: the gap "
         "between consecutive transitions exceeds the two adjacent offset changes together); evaluated on every file, violations are listed in the evidence",
         "before a table's first transition and after its last one the code uses the first / last record (FIXMEs in TimeZone.cc); agreement "
         "with glibc is claimed and tested only between first and last transition",
         "IPv6 text is glibc's: only muduo's `[..]:port` wrapper is modelled; the compressions are tested to round-trip, not proved",
-        "version-3 TZif files (7 on this image) are read through their 32-bit block because the reader tests version == \"2\"",
+        "version-3 TZif files (7 on this image) are read through their 32-bit block because the reader tests version == \"2\" "
+        "(ZoneDesc.selected in the theorems, `tzif_read` in the oracle say the same)",
+        "zone-file reader: counters below 2^27 in the theorems (the code multiplies them in `int`; overflow is undefined), charcnt "
+        "<= 0 (`char buf[n]` needs a positive size; RFC 8536 forbids charcnt = 0; g++'s sanitizer stops there) and allocation failure of `reserve` for huge positive counters are outside the model; "
+        "a file with typecnt = 0 and timecnt = 0 loads as a valid zone without any local time type (every conversion on it reads "
+        "localtimes.front() of an empty vector): RFC 8536 forbids such files, the check only dumps them",
     ]
     partial_theorems = []
 
@@ -275,6 +378,8 @@ class Prop:
     # ------------------------------------------------------------------ zone table cache (independent parser)
     def __init__(self):
         self.tz_cache = {}
+        self.rfc_cache = {}
+        self.tables_compared = 0
 
     def tz(self, path=None, data=None):
         key = path or hashlib.sha256(data).hexdigest()
@@ -287,6 +392,58 @@ class Prop:
                     data = b""
             self.tz_cache[key] = Tz(data)
         return self.tz_cache[key]
+
+    # ------------------------------------------------------------------ the loaded table against the RFC 8536 reader
+    def file_bytes(self, path):
+        try:
+            with open(path, "rb") as f:
+                return f.read()
+        except OSError:
+            return b""
+
+    def table_check(self, raw, obs):
+        """obs: the implementation's block of a `zone` / `zonebytes` line (`zone ok`, `tab ..`, `tr ..`, `lt ..`, `abbr`, `tz`
+        or `zone invalid`, `err ..`).  -> None | (kind, text)"""
+        key = hashlib.sha256(raw).digest()
+        if key not in self.rfc_cache:
+            self.rfc_cache[key] = tzif_read(raw)
+        verdict, tab = self.rfc_cache[key]
+        if verdict == "unknown":
+            return None
+        ok = obs[0] == "zone ok"
+        if ok != (verdict == "ok"):
+            return ("zone-load", "%s, the reader written from RFC 8536 says %s%s" % (
+                obs[0], verdict, "" if verdict == "ok" else " (%s)" % tab))
+        if not ok:
+            return None
+        tr, lt, abbr, tzs, head = [], [], None, None, None
+        for l in obs[1:]:
+            f = l.split()
+            if f[0] == "tab":
+                head = (int(f[2]), int(f[4]))
+            elif f[0] == "tr":
+                tr.append((int(f[2]), int(f[3]), int(f[4])))
+            elif f[0] == "lt":
+                lt.append((int(f[2]), int(f[3]), int(f[4])))
+            elif f[0] == "abbr":
+                abbr = bytes.fromhex(unq(l)[0])
+            elif f[0] == "tz":
+                tzs = bytes.fromhex(unq(l)[0])
+        if head != (len(tab["trans"]), len(tab["types"])) or head != (len(tr), len(lt)):
+            return ("zone-table", "table has %s transitions/types (%d/%d lines), the file describes %d/%d" % (
+                head, len(tr), len(lt), len(tab["trans"]), len(tab["types"])))
+        for k, (got, exp) in enumerate(zip(tr, tab["trans"])):
+            if got != exp:
+                return ("zone-table", "transition %d is (utc %d, shifted %d, type %d), the file says (utc %d, shifted %d, type %d)" % ((k,) + got + exp))
+        for k, (got, exp) in enumerate(zip(lt, tab["types"])):
+            if got != exp:
+                return ("zone-table", "local time type %d is (utoff %d, isdst %d, desigidx %d), the file says (%d, %d, %d)" % ((k,) + got + exp))
+        if abbr != tab["chars"]:
+            return ("zone-table", "designations %r, the file says %r" % (abbr, tab["chars"]))
+        if tzs != tab["footer"]:
+            return ("zone-table", "footer %r, the file says %r" % (tzs, tab["footer"]))
+        self.tables_compared += 1
+        return None
 
     # ------------------------------------------------------------------ oracle on the implementation's own output
     def oracle(self, ops, blocks):
@@ -382,9 +539,14 @@ class Prop:
                     z = self.tz(path=w[1])
                     zone_path = w[1]
                 else:
-                    z = self.tz(data=bytes.fromhex(w[1]))
+                    z = self.tz(data=bytes.fromhex(w[1] if len(w) > 1 else ""))
                 if res == "zone unreadable":
                     continue
+                # the table loadZoneFile built (dumped entry by entry) against the reader written from RFC 8536
+                raw = self.file_bytes(w[1]) if name == "zone" else bytes.fromhex(w[1] if len(w) > 1 else "")
+                bad = self.table_check(raw, obs)
+                if bad:
+                    fail(i, bad[0], "loadZoneFile(%s): %s" % (w[1] if name == "zone" else "%d bytes" % len(raw), bad[1]))
                 if (res == "zone ok") != z.ok and name == "zone":
                     fail(i, "zone-load", "loadZoneFile: %s, the independent parser says %s" % (res, "valid" if z.ok else "not loadable (leap seconds / damaged)"))
                 if res == "zone ok" and z.ok:
@@ -689,6 +851,108 @@ class Prop:
                 lines.append("probe 1000000000")
         return lines
 
+    def tzfile_lines(self, ctx, plain, leap):
+        """the zone-FILE READER: every platform file dumped; synthesized files (32-bit only, second block, version bytes,
+        no transitions, times before 1901 / after 2038 / with the top bit set, many types, indicator bytes, odd counters);
+        every truncation point of small files; damaged magic.  Judged: table against the RFC 8536 reader (oracle), and
+        model = implementation including the kind of failure"""
+        rng = ctx.rng
+        lines = []
+        stat = {"platform_files": 0, "synthesized": 0, "truncations": 0, "damaged": 0}
+        files = plain + (leap[:10] if ctx.quick() else leap[::5])
+        for p in files:
+            lines.append("zone " + p)
+        stat["platform_files"] = len(files)
+
+        def add(b, probes=()):
+            lines.append("zonebytes " + b.hex())
+            for t in probes:
+                lines.append("probe %d" % t)
+
+        gmt, bst = (0, 0, 0), (3600, 1, 4)
+        chars = b"GMT\0BST\0"
+        b1 = tzif_block([-1000000000, -86400, 0, 1000000000, 2 ** 31 - 1], [1, 0, 1, 0, 1], [gmt, bst], chars)
+        b2 = tzif_block([-2 ** 59, -3000000000, -2 ** 31 - 1, -1000000000, 1000000000, 2 ** 31, 5000000000, 2 ** 40],
+                        [0, 1, 0, 1, 0, 1, 0, 1], [gmt, bst], chars, isstd=b"\0\1", isut=b"\0\0")
+        synth = []
+        synth.append(mk_tzif(b"\0", b1))                                                     # version 1: first block only
+        synth.append(mk_tzif(b"\0", tzif_block([-2 ** 31, -2 ** 31 + 1, -86400], [0, 1, 0], [gmt, bst], chars)))
+        for ver in (b"2", b"3", b"4", b"1", b"9", b"\0", b"\xff"):
+            synth.append(mk_tzif(ver, b1, b2, b"\nGMT0BST,M3.5.0/1,M10.5.0\n"))
+        synth.append(mk_tzif(b"2", tzif_block([], [], [gmt], b"GMT\0"), tzif_block([], [], [gmt], b"GMT\0"), b"\nGMT0\n"))  # no transitions
+        synth.append(mk_tzif(b"2", tzif_block([], [], [gmt], b"GMT\0"), b2, b""))                                          # slim first block
+        synth.append(mk_tzif(b"2", b1, tzif_block([5], [0], [(-43200, 0, 0)], b"\0"), b"\n"))                               # one empty designation
+        synth.append(mk_tzif(b"2", b1, tzif_block([], [], [], b"\0"), b"\n"))                                              # no types at all
+        many = [(rng.randrange(-50400, 50401), rng.randrange(2), rng.randrange(256)) for _ in range(256)]
+        synth.append(mk_tzif(b"2", b1, tzif_block(sorted(rng.randrange(-2 ** 40, 2 ** 40) for _ in range(300)),
+                                                  [rng.randrange(256) for _ in range(300)], many, bytes(range(256)),
+                                                  isstd=bytes(256), isut=bytes(256)), b"\nX\n"))
+        synth.append(mk_tzif(b"\0", tzif_block(sorted(rng.randrange(-2 ** 31, 2 ** 31) for _ in range(300)),
+                                               [rng.randrange(256) for _ in range(300)], many, bytes(range(256)))))
+        synth.append(mk_tzif(b"2", b1, tzif_block([1, 2], [0, 1], [(0, 2, 0), (1, 255, 255)], b"A\0")))                     # isdst bytes other than 0/1
+        # leap-second records in the FIRST block only: skipped with it (4 + 4 bytes each), the second block is taken
+        synth.append(mk_tzif(b"2", tzif_block([5], [0], [gmt], b"GMT\0", leaps=[(78796800, 1), (94694401, 2)]), b2, b"\nX\n"))
+        synth.append(mk_tzif(b"2", tzif_block([5], [0], [gmt], b"GMT\0", isstd=b"\1", isut=b"\1", leaps=[(78796800, 1)]), b2, b"\nX\n"))
+        for _ in range(20 if ctx.quick() and not ctx.search_mode else 300):
+            def blk(tsz):
+                nty = rng.choice([1, 1, 2, 3, 7, 40])
+                ntr = rng.choice([0, 1, 2, 5, 30])
+                lim = 2 ** 31 if tsz == 4 else rng.choice([2 ** 31, 2 ** 33, 2 ** 50, 2 ** 62])
+                return tzif_block(sorted(rng.randrange(-lim, lim) for _ in range(ntr)), [rng.randrange(nty) for _ in range(ntr)],
+                                  [(rng.randrange(-2 ** 31, 2 ** 31) if rng.random() < 0.2 else rng.randrange(-50400, 50401),
+                                    rng.choice([0, 1, 1, 2, 128, 255]), rng.randrange(256)) for _ in range(nty)],
+                                  bytes(rng.randrange(256) for _ in range(rng.choice([1, 1, 4, 9, 60]))),
+                                  isstd=bytes(rng.randrange(2) for _ in range(rng.choice([0, nty]))),
+                                  isut=bytes(rng.randrange(2) for _ in range(rng.choice([0, nty]))))
+            ver = rng.choice([b"2", b"2", b"2", b"3", b"\0", b"4"])
+            synth.append(mk_tzif(ver, blk(4), None if ver == b"\0" and rng.random() < 0.7 else blk(8),
+                                 bytes(rng.randrange(256) for _ in range(rng.choice([0, 2, 12])))))
+        for b in synth:
+            verdict, tab = tzif_read(b)
+            pr = []
+            zt = Tz(b)
+            # conversions are claimed for well-formed tables only (gap rule): probe those
+            if verdict == "ok" and tab["types"] and zt.ok and zt.wellformed()[0] and all(abs(o) <= 93600 for o, _, _ in tab["types"]):
+                for (t, _, _) in tab["trans"][:6]:
+                    pr += [x for x in (t - 1, t, t + 1) if -2 ** 36 < x < 2 ** 36]
+            add(b, pr[:12])
+        stat["synthesized"] = len(synth)
+        # refused: leap seconds, indicator counts that fit nothing, a type index past the last type, odd counters
+        lp = tzif_block([5], [0], [gmt], b"GMT\0", leaps=[(78796800, 1)])
+        damaged = [mk_tzif(b"\0", lp), mk_tzif(b"2", b1, lp),
+                   mk_tzif(b"2", b1, tzif_block([5], [0], [gmt, bst], chars, isstd=b"\0")),
+                   mk_tzif(b"2", b1, tzif_block([5], [0], [gmt, bst], chars, isut=b"\0\0\0")),
+                   mk_tzif(b"2", b1, tzif_block([5, 6], [0, 2], [gmt, bst], chars)),
+                   mk_tzif(b"\0", tzif_block([5, 6], [0, 200], [gmt, bst], chars)),
+                   mk_tzif(b"\0", tzif_block([5], [0], [], b"")),
+                   mk_tzif(b"2", b1, b2, b"x", magic2=b"TZiF"), mk_tzif(b"2", b1, b2, b"x", magic2=b"\0\0\0\0")]
+        # counters: negative / larger than the file (charcnt stays >= 0: `char buf[n]` with n < 0 is undefined)
+        full = mk_tzif(b"2", b1, b2, b"\nX\n")
+        for (isut, isstd, leapc, tc, yc, cc) in ((0, 0, 0, -1, 2, 8), (0, 0, 0, 5, -1, 8), (0, 0, 0, -2 ** 31, 2, 8), (0, 0, 0, 5, 2, 4000),
+                                                 (0, 0, 0, 70000, 2, 8), (0, 0, 0, 5, 70000, 8), (2, 2, 0, 5, 2, 8), (-1, 0, 0, 5, 2, 8),
+                                                 (0, -2, 0, 5, 2, 8), (0, 0, -1, 5, 2, 8), (0, 0, 3, 5, 2, 8)):
+            damaged.append(mk_tzif(b"\0", b1, counts1=(isut, isstd, leapc, tc, yc, cc)))
+            damaged.append(mk_tzif(b"2", b1, b2, b"\nX\n", counts2=(isut, isstd, leapc, tc, yc, cc)))
+            damaged.append(mk_tzif(b"2", b1, b2, b"\nX\n", counts1=(isut, isstd, leapc, tc, yc, cc)))    # the skip over block 1 goes astray
+        for c1 in ((0, 0, 0, -1000000, 0, 0), (0, 0, 0, 0, -100000, 0), (-7, 0, 0, 0, 0, 0), (0, 0, 0, 1000000, 2, 8)):
+            damaged.append(mk_tzif(b"2", b1, b2, b"\nX\n", counts1=c1))
+        for k in range(4):
+            m = bytearray(full)
+            m[k] ^= 0x20
+            damaged.append(bytes(m))
+        for b in damaged:
+            add(b)
+        stat["damaged"] = len(damaged)
+        # every truncation point of two small platform files and two synthesized ones
+        small = sorted((os.path.getsize(p), p) for p in plain)
+        picks = [p for _, p in small[:1]] + [p for sz, p in small if sz > 230][:1]
+        for b in [self.file_bytes(p) for p in picks] + [synth[0], synth[2]]:
+            for c in range(len(b)):
+                add(b[:c])
+                stat["truncations"] += 1
+        ctx.extra["zone_file_reader"] = stat
+        return lines
+
     # ------------------------------------------------------------------ running
     def minimal(self, ops, i):
         """the smallest case that reproduces step i: the zone line in force + the line itself"""
@@ -795,6 +1059,10 @@ class Prop:
             for p in sorted(glob.glob(os.path.join(CORPUS, "C20", "*.case"))):
                 self.run_batch(ctx, exe, self.read_case(p), "corpus:" + os.path.basename(p))
                 ctx.count("corpus_cases")
+            if ctx.stop():
+                return
+            self.run_batch(ctx, exe, self.tzfile_lines(ctx, plain, leap), "zone-file-reader" + ("" if fi == 0 else "-" + fl))
+            ctx.extra.setdefault("zone_file_reader", {})["tables_equal_to_rfc8536_reader"] = self.tables_compared
             if ctx.stop():
                 return
             if fi > 0:
